@@ -1353,3 +1353,13 @@ TABLE["C07"] += [
     B("typedef-target-matched-by-name-only", {"V8"},
       (IP + "namespace.py", "            classes_and_funcs = (c for c in namespace.content\n                                 if isinstance(c, (Class, GlobalFunction, ForwardDeclaration)))", "            classes_and_funcs = (c for c in namespace.content\n                                 if hasattr(c, 'name'))")),
 ]
+_NESTED_WALK = "    def instantiate_template_args(typename):\n        for instantiation in typename.instantiations:\n            if instantiation.name in template_typenames:\n                template_idx = template_typenames.index(instantiation.name)\n                instantiation.name = instantiations[template_idx]\n            else:\n                instantiate_template_args(instantiation)\n\n    instantiate_template_args(ctype.typename)\n"
+_NESTED_WALK_LAZY_OK = "    def parameter_uses(typename):\n        for instantiation in typename.instantiations:\n            if instantiation.name in template_typenames:\n                yield instantiation\n            else:\n                yield from parameter_uses(instantiation)\n\n    for use in parameter_uses(ctype.typename):\n        template_idx = template_typenames.index(use.name)\n        use.name = instantiations[template_idx]\n"
+_NESTED_WALK_LAZY_BAD = "    def template_args(typename):\n        for instantiation in typename.instantiations:\n            yield instantiation\n            yield from template_args(instantiation)\n\n    for template_arg in template_args(ctype.typename):\n        if template_arg.name in template_typenames:\n            template_idx = template_typenames.index(template_arg.name)\n            concrete = instantiations[template_idx]\n            template_arg.namespaces = template_arg.namespaces + concrete.namespaces\n            template_arg.name = concrete.name\n            template_arg.instantiations = deepcopy(concrete.instantiations)\n"
+for _p, _r in (("C02", "S12"), ("C09", "W5"), ("C04", "B8"), ("C13", "P1"), ("C08", "N7")):
+    TABLE[_p] += [N("nested-walk-as-a-generator-of-parameter-uses", (HP, _NESTED_WALK, _NESTED_WALK_LAZY_OK))]
+TABLE["C02"] += [B("nested-walk-rescans-what-it-grafted", {"S12"}, (HP, _NESTED_WALK, _NESTED_WALK_LAZY_BAD))]
+TABLE["C01"] += [
+    B("character-literals-left-to-the-word-alternative", {"G12"},
+      (IP + "tokens.py", "        QuotedString(\"'\") ^  # parse single quoted strings\n", "")),
+]
